@@ -644,6 +644,31 @@ func runC14(h *Harness) {
 		}
 		h.Settle(quantum)
 	}
+	// two certificates with the same subject and serial from different issuers, presented AT THE SAME TIME: the first
+	// one's responder is slow, the second one's answers 'revoked' at once. Whatever the validator shares between
+	// handshakes in flight, each certificate gets the answer that was obtained for it.
+	if len(h.R.Violations) == 0 && tp.Chance(1, 2) {
+		s2 := big.NewInt(0x4343)
+		cA := w.A.Issue(EEOpts{CN: "same-subject", Serial: s2, OCSP: []string{resp.URL}, CDP: []string{}})
+		cB := w.B.Issue(EEOpts{CN: "same-subject", Serial: s2, OCSP: []string{respB.URL}, CDP: []string{}})
+		resp.State, resp.Status, resp.Slow, resp.Hits = "answer", rGood, 3*time.Second, 0
+		respB.State, respB.Status = "answer", rRevoked
+		n := nodes[0]
+		hsA := h.StartHandshake(n, "twin-a", w.ChainFor(cA, w.A))
+		h.S.Run(func(v schedView) bool { return resp.Hits > 0 || hsA.Task.done }, h.S.Now()+time.Minute)
+		hsB := h.StartHandshake(n, "twin-b", w.ChainFor(cB, w.B))
+		h.Wait(hsA.Task, hsB.Task)
+		resp.Slow = 0
+		h.R.Checks += 2
+		h.R.NonTrivial = true
+		if !isRevokedErr(hsB.Err) {
+			h.Violation("C14.wrong-certificate", "twin-served-from-a-query-in-flight", "a certificate of issuer B (its responder answers 'revoked') presented while the query for a certificate of issuer A with the same subject and serial was in flight returned %s", errStr(hsB.Err))
+		}
+		if hsA.Err != nil {
+			h.Violation("C14.wrong-certificate", "twin-in-flight:first-handshake:"+errStr(hsA.Err), "the slow query for the certificate of issuer A (answer 'good') ended in %s while a twin certificate of issuer B was being checked", errStr(hsA.Err))
+		}
+		hist = append(hist, "concurrent twins: a="+errStr(hsA.Err)+" b="+errStr(hsB.Err))
+	}
 	if len(hist) > 14 {
 		hist = append(hist[:14], "...")
 	}
